@@ -252,7 +252,7 @@ def lexer_terminates(idx, ns, first_bytes, entry='getNextToken', budget=40):
     problems = []
     f = idx.func(lex_cls + '::' + entry)
     for c in first_bytes:
-        script = _Script([c])
+        script = _Script(list(c) if isinstance(c, tuple) else [c])
 
         def hooks(I, n, kind, name, did, obj, args, env, script=script):
             t = (dqt(obj) + ' ' + qt(obj)) if obj is not None else ''
@@ -301,7 +301,7 @@ def lexer_terminates(idx, ns, first_bytes, entry='getNextToken', budget=40):
             # prime the first character as openFile/loadBuffer do, then read tokens until END_OF_FILE (at most 4)
             rc = [m for m in idx.record(lex_cls).methods if m.name == 'readChar'][0]
             I.invoke(rc, lex, [])
-            for _ in range(4):
+            for _ in range(4 + (len(c) if isinstance(c, tuple) else 0)):
                 tk = I.invoke(f, lex, [])
                 if isinstance(tk, IV) and tk.concrete() and tk.lo == tokens.get('END_OF_FILE'):
                     break
